@@ -3,6 +3,7 @@
 package proxy
 
 import (
+	"fmt"
 	"reflect"
 	"unsafe"
 
@@ -38,6 +39,11 @@ func Interface(ifaceVar interface{}, ctx *iface.IContext, method string, imp int
 		return erro.NewIllegalParamCError("interface As()", reflect.ValueOf(imp).String(), cause)
 	}
 
+	// check args and returns size match (和函数 mock 的签名检查一致: 大小不一致的回调会错读参数、写坏返回值)
+	if err := checkIfaceSignature(typ.Method(funcTabIndex).Type, reflect.TypeOf(imp)); err != nil {
+		return erro.NewIllegalParamCError("interface As()", reflect.ValueOf(imp).String(), err)
+	}
+
 	// 首次调用备份 iface
 	gen := hack.UnpackEFace(ifaceVar).Data
 	iface.BackUpTo(ctx, gen)
@@ -58,6 +64,26 @@ func Interface(ifaceVar interface{}, ctx *iface.IContext, method string, imp int
 		// 在已取消的上下文上再次 mock (比如 Reset 之后通过保留的句柄): 上下文重新生效
 		ctx.Resume()
 		applyIfaceTo(fakeIface, gen)
+	}
+	return nil
+}
+
+// checkIfaceSignature 检查回调(第一个参数是 *IContext)和接口方法的参数、返回值的内存大小是否一致
+func checkIfaceSignature(methodTyp, impTyp reflect.Type) error {
+	for i := 0; i < methodTyp.NumIn() && i+1 < impTyp.NumIn(); i++ {
+		if methodTyp.In(i).Size() != impTyp.In(i+1).Size() {
+			return fmt.Errorf("func signature mismatch, args %d's size must:%d, actual:%d",
+				i, methodTyp.In(i).Size(), impTyp.In(i+1).Size())
+		}
+	}
+	if methodTyp.NumOut() != impTyp.NumOut() {
+		return fmt.Errorf("func signature mismatch, returns len must:%d, actual:%d", methodTyp.NumOut(), impTyp.NumOut())
+	}
+	for i := 0; i < methodTyp.NumOut(); i++ {
+		if methodTyp.Out(i).Size() != impTyp.Out(i).Size() {
+			return fmt.Errorf("func signature mismatch, returns %d's size must:%d, actual:%d",
+				i, methodTyp.Out(i).Size(), impTyp.Out(i).Size())
+		}
 	}
 	return nil
 }
